@@ -52,6 +52,15 @@ let dim_of s = if s = "-" then None else
   | [w; h] -> Some (((Z0, Z0), z_of_hex w), z_of_hex h)
   | _ -> failwith "bad dim"
 
+(* box definition: "-" | a,b,c,d (rectangle) | m:l,r,t,b (absolute margins left,right,top,bottom) *)
+let opt_def s =
+  if s = "-" then None
+  else if String.length s > 2 && String.sub s 0 2 = "m:" then
+    (match String.split_on_char ',' (String.sub s 2 (String.length s - 2)) with
+     | [l; r; t; b] -> Some (BMarg (z_of_hex l, z_of_hex r, z_of_hex t, z_of_hex b))
+     | _ -> failwith "bad margins")
+  else (match opt_rect s with Some r -> Some (BRect r) | None -> None)
+
 (* ops separated by '|', fields by ' ':
    I sel before dim | R sel | T sel | C pages | O sel delta | A sel media crop trim bleed art | X sel c t b a | K sel rect *)
 let op_of_string s =
@@ -62,9 +71,9 @@ let op_of_string s =
   | ["C"; l] -> OCollect (sel_of l)
   | ["O"; sel; d] -> ORotate (sel_of sel, z_of_hex d)
   | ["A"; sel; m; c; t; b; a] ->
-    OAddBox (sel_of sel, { b_media = opt_rect m; b_crop = opt_rect c; b_trim = opt_rect t; b_bleed = opt_rect b; b_art = opt_rect a })
+    OAddBox (sel_of sel, { b_media = opt_def m; b_crop = opt_def c; b_trim = opt_def t; b_bleed = opt_def b; b_art = opt_def a })
   | ["X"; sel; c; t; b; a] -> ORmBox (sel_of sel, { r_crop = flag c; r_trim = flag t; r_bleed = flag b; r_art = flag a })
-  | ["K"; sel; r] -> (match opt_rect r with Some r -> OCrop (sel_of sel, r) | None -> failwith "bad crop")
+  | ["K"; sel; r] -> (match opt_def r with Some bd -> OCrop (sel_of sel, bd) | None -> failwith "bad crop")
   | _ -> failwith ("bad op " ^ s)
 
 let ops_of_string s = if s = "" then [] else List.map op_of_string (String.split_on_char '|' s)
